@@ -190,6 +190,7 @@ func c05Guard(f func() error) (err error, pan any) {
 }
 
 func c05Norm(s string, max int) string {
+	s = c05ASCII(s)
 	var sb strings.Builder
 	for i := 0; i < len(s) && sb.Len() < max; {
 		b := s[i]
@@ -240,8 +241,22 @@ func (c *c05Ctx) note(op, arg, outcome string) {
 	}
 }
 
+// c05ASCII makes a message printable (error texts of the code under test may embed raw share bytes).
+func c05ASCII(s string) string {
+	var sb strings.Builder
+	for i := 0; i < len(s) && sb.Len() < 600; i++ {
+		if b := s[i]; b >= 0x20 && b < 0x7f {
+			sb.WriteByte(b)
+		} else {
+			fmt.Fprintf(&sb, "\\x%02x", b)
+		}
+	}
+	return sb.String()
+}
+
 // fail reports a violation; mech names the mechanism.
 func (c *c05Ctx) fail(op, mech, arg, what string) {
+	what = c05ASCII(what)
 	sig := fmt.Sprintf("C05/%s/%s/%s", op, mech, c.ri.class)
 	c.sigs[sig] = true
 	c.note(op, arg, "VIOLATION:"+mech)
